@@ -452,6 +452,23 @@ pub fn check_instance_copies(shape: usize) -> Vec<Finding> {
         for j in 0..5 {
             i = i.with_port(1000 + j);
         }
+        if shape >= 5 {
+            // many members in both sets, inserted in an order that depends on `order`
+            let n = [16usize, 17, 18, 24, 32, 64, 100, 300][(shape - 5) % 8];
+            let mut idx: Vec<usize> = (0..n).collect();
+            if order % 2 == 1 {
+                idx.reverse();
+            }
+            idx.rotate_left((order * 7) % n);
+            for j in idx {
+                i = i.with_port(2000 + j as u16);
+                i = if j % 4 == 3 {
+                    i.with_ip_address(std::net::IpAddr::V6(std::net::Ipv6Addr::new(0xfd00, 0, 0, 0, 0, 0, 1, j as u16)))
+                } else {
+                    i.with_ip_address(std::net::IpAddr::V4(std::net::Ipv4Addr::new(10, 1, (j >> 8) as u8, j as u8)))
+                };
+            }
+        }
         i
     };
     let r = guarded(|| {
@@ -590,14 +607,14 @@ pub fn run(ctx: &Ctx) {
         ctx.space("InstanceInformation pairs: every name of <= 3 characters over {a, A, '.', '\\', ' ', e-acute} plus escaped / unescaped spellings, and variants in ports, addresses (incl. IPv4-mapped), attributes (absent / empty / value, key case, insertion order): all ordered pairs, a == b => same hash and found in a HashSet", n * n, "complete");
         ctx.sample(json!({"kind": "instance-pairs"}));
         let mut t = Tally::default();
-        for shape in 0..5usize {
+        for shape in 0..13usize {
             t.evals += 48;
             t.nontrivial += 48;
             ctx.violations(check_instance_copies(shape));
         }
         t.outcome("instance-copies");
         ctx.merge(t);
-        ctx.space("InstanceInformation copies: 5 shapes (attribute keys that collide when case is folded, 12 and 40 attributes, several addresses and ports) x 48 independently built equal values each (members inserted in rotated / reversed orders): all equal, all hash alike, one HashSet element", 5 * 48, "complete");
+        ctx.space("InstanceInformation copies: 13 shapes (attribute keys that collide when case is folded, 12 and 40 attributes, several addresses and ports, 16 / 17 / 18 / 24 / 32 / 64 / 100 / 300 members in the address and port sets) x 48 independently built equal values each (members inserted in rotated / reversed orders): all equal, all hash alike, one HashSet element", 13 * 48, "complete");
     }
 }
 
